@@ -186,7 +186,7 @@ class ProvRDFSerializer(Serializer):
             return name
         return self.document.valid_qualified_name(value)
 
-    def uri_to_name(self, container, uri):
+    def uri_to_name(self, container, uri, graph=None):
         """
         Turns a URI read from the graph into a qualified name in the scope of
         the given document or bundle.
@@ -206,6 +206,17 @@ class ProvRDFSerializer(Serializer):
                         namespace[uri[len(namespace.uri) :]]
                     )
             manager = manager.parent
+        if ":" in uri and graph is not None:
+            # No declared namespace covers this URI (rdflib only writes the
+            # prefix declarations it has used, and it cannot abbreviate every
+            # name): declare one for it, as is done for the resources that
+            # carry an rdf:type
+            try:
+                prefix, iri, _ = graph.namespace_manager.compute_qname(uri)
+            except Exception:
+                return uri
+            namespace = self.document.add_namespace(prefix, str(iri))
+            return container.valid_qualified_name(namespace[uri[len(namespace.uri) :]])
         return uri
 
     def encode_rdf_representation(self, value):
@@ -556,7 +567,7 @@ class ProvRDFSerializer(Serializer):
         other_attributes = {}
 
         def name(uri):
-            return self.uri_to_name(bundle, uri)
+            return self.uri_to_name(bundle, uri, graph)
 
         for stmt in graph.triples((None, RDF.type, None)):
             id = str(stmt[0])
@@ -674,7 +685,14 @@ class ProvRDFSerializer(Serializer):
                     if "qualified" not in str(pred_new) and "asInBundle" not in str(
                         pred_new
                     ):
-                        other_attributes[id].append((name(pred_new), obj1))
+                        other_attributes[id].append(
+                            (
+                                pred_new
+                                if isinstance(pred_new, pm.QualifiedName)
+                                else name(pred_new),
+                                obj1,
+                            )
+                        )
             local_key = str(obj)
             if local_key in ids:
                 if "qualified" in pred:
